@@ -30,47 +30,41 @@ EXTENDS ArimaaRules, TLC
 
 RawSteps(b) == {a \in Sq \X Dirs : b[a[1]] # 0 /\ Nbr[a[1]][a[2]] # 0 /\ b[Nbr[a[1]][a[2]]] = 0}
 
-\* all physically possible step sequences of length exactly n, each with the boards before
-\* every step: <<q, bs>> with bs[k] the board before step k and bs[Len(q)+1] the final board
-RECURSIVE RawT(_, _)
-RawT(b, n) ==
-  IF n = 0 THEN {<<<<>>, <<b>>>>}
-  ELSE UNION {{<<Append(t[1], a), Append(t[2], StepBoard(t[2][Len(t[2])], a[1], a[2]))>> :
-                  a \in RawSteps(t[2][Len(t[2])])} : t \in RawT(b, n - 1)}
-
 ---------------------------------------------------------------------------
 \* declarative side
 
-\* may step k of q carry label lab, given the label of step k-1 ("" = none)?
-StepOK(s, q, bs, k, lab, prevLab) ==
-  LET b  == bs[k]
-      i  == q[k][1]
-      d  == q[k][2]
-      pb == IF k > 1 THEN bs[k - 1] ELSE bs[1]          \* board before step k-1
-      pi == IF k > 1 THEN q[k - 1][1] ELSE 0            \* square step k-1 left
-  IN
+Labels == {"own", "lead", "follow", "victim", "enter"}
+
+\* May the step a = <<i,d>>, made on board b as step number k of the turn, carry label lab, when
+\* the previous step left square pi on board pb (the board before that step) with label prevLab?
+StepOK(s, b, a, lab, prevLab, pb, pi) ==
+  LET i == a[1]  d == a[2] IN
   /\ (prevLab = "lead"   => lab = "follow")
   /\ (prevLab = "victim" => lab = "enter")
   /\ CASE lab = "own"  -> Mine(b, i, s) /\ ~Frozen(b, i) /\ ~(Type(b[i]) = Rabbit /\ d = Back(s))
-       [] lab = "lead" -> /\ Mine(b, i, s) /\ ~Frozen(b, i) /\ Type(b[i]) # Rabbit
-                          /\ k < Len(q)
+       [] lab = "lead" -> Mine(b, i, s) /\ ~Frozen(b, i) /\ Type(b[i]) # Rabbit
        [] lab = "follow" -> /\ prevLab = "lead" /\ Theirs(b, i, s)
                             /\ Nbr[i][d] = pi /\ Type(b[i]) < Type(pb[pi])
-       [] lab = "victim" -> /\ Theirs(b, i, s) /\ k < Len(q)
+       [] lab = "victim" -> /\ Theirs(b, i, s)
                             /\ \E j \in Adj[i] : Mine(b, j, s) /\ ~Frozen(b, j) /\ Type(b[j]) > Type(b[i])
        [] lab = "enter" -> /\ prevLab = "victim" /\ Mine(b, i, s) /\ ~Frozen(b, i)
                            /\ Nbr[i][d] = pi /\ Type(b[i]) > Type(pb[pi])
 
-Labels == {"own", "lead", "follow", "victim", "enter"}
+\* all labelled step sequences extending q (current board b, last label prevLab, previous board pb,
+\* square left by the previous step pi); a sequence is a complete turn when it is non-empty and its
+\* last label needs no partner ("lead" and "victim" must be followed by their partner inside the turn)
+RECURSIVE DeclFrom(_, _, _, _, _, _)
+DeclFrom(s, q, b, prevLab, pb, pi) ==
+  (IF q # <<>> /\ prevLab \notin {"lead", "victim"} THEN {q} ELSE {})
+  \cup
+  (IF Len(q) = 4 THEN {}
+   ELSE UNION {UNION {DeclFrom(s, Append(q, a), StepBoard(b, a[1], a[2]), lab, b, a[1]) :
+                        lab \in {l \in Labels : StepOK(s, b, a, l, prevLab, pb, pi)}} :
+                 a \in RawSteps(b)})
 
-RECURSIVE LabelFrom(_, _, _, _, _)
-LabelFrom(s, q, bs, k, prevLab) ==
-  IF k > Len(q) THEN prevLab \notin {"lead", "victim"}
-  ELSE \E lab \in Labels : StepOK(s, q, bs, k, lab, prevLab) /\ LabelFrom(s, q, bs, k + 1, lab)
-
-CompleteTurn(s, t) == Len(t[1]) \in 1..4 /\ LabelFrom(s, t[1], t[2], 1, "")
-
-DeclComplete(b, s) == {t[1] : t \in {u \in UNION {RawT(b, n) : n \in 1..4} : CompleteTurn(s, u)}}
+DeclComplete(b, s) == DeclFrom(s, <<>>, b, "", b, 0)
+\* prefixes of complete turns: labelled sequences that can still be completed.  (A sequence ending
+\* in "lead"/"victim" at step 4 is not a prefix of anything.)
 DeclPrefixes(b, s) == UNION {{SubSeq(q, 1, j) : j \in 0..Len(q)} : q \in DeclComplete(b, s)}
 
 ---------------------------------------------------------------------------
@@ -89,12 +83,16 @@ ConsComplete(b, s) ==
     \cup {t[1] : t \in ConsStates(b, s, 4)}
 
 Agree(b, s) ==
-  /\ ConsComplete(b, s) = DeclComplete(b, s)
-  /\ ConsPrefixes(b, s) = DeclPrefixes(b, s) \cup {<<>>}
-  \* every playable prefix can be continued to a complete turn (C01: "every offered step can
-  \* be continued to a complete legal turn")
-  /\ \A p \in ConsPrefixes(b, s) : p = <<>> \/ \E c \in ConsComplete(b, s) :
-         Len(c) >= Len(p) /\ SubSeq(c, 1, Len(p)) = p
+  LET cc == ConsComplete(b, s)
+      cp == ConsPrefixes(b, s)
+      dc == DeclComplete(b, s)
+      dp == UNION {{SubSeq(q, 1, j) : j \in 0..Len(q)} : q \in dc}
+      c4 == ConsStates(b, s, 4)
+  IN
+  /\ cc = dc
+  /\ cp = dp \cup {<<>>}
+  \* (with the two equalities, every playable prefix is a prefix of a complete turn: C01's "every
+  \* offered step can be continued to a complete legal turn")
   \* after the fourth step nothing is pending
-  /\ \A t \in ConsStates(b, s, 4) : t[3][1] # 2
+  /\ \A t \in c4 : t[3][1] # 2
 =============================================================================
